@@ -16,6 +16,17 @@ CRITERIA_OPERATORS = {
 }
 
 
+ORDERING_OPERATORS = ('<', '<=', '>=', '>')
+
+
+def _kind(value):
+    if isinstance(value, (str, func_xltypes.Text)):
+        return 'text'
+    if isinstance(value, (bool, func_xltypes.Boolean)):
+        return 'logical'
+    return 'number'
+
+
 def parse_criteria(criteria):
 
     if isinstance(criteria, (str, func_xltypes.Text)):
@@ -40,7 +51,13 @@ def parse_criteria(criteria):
             else:
                 break
 
+        ordering = str_operator in ORDERING_OPERATORS
+
         def check(probe):
+            # "<", "<=", ">=" and ">" only match values of the operand's own
+            # type: ">5" does not match text, "<b" does not match numbers.
+            if ordering and _kind(probe) != _kind(value):
+                return False
             return operator(probe, value)
 
         return check
